@@ -179,3 +179,41 @@ pub fn qualify(spec: &ProgSpec, step_budget: u64) -> Option<vm::RunResult> {
 pub fn builds(spec: &ProgSpec) -> bool {
     spec.build().is_ok()
 }
+
+// ------------------------------------------------------------------------------------------------
+// W1x: scale templates — ordinary-looking programs that cross size thresholds inside the format and the
+// implementation: > 255 and > 4096 constants, hundreds of globals/functions/fields, methods beyond 65535
+// instructions, strings beyond 64 KiB, outputs beyond the stdio buffers, thousands of allocations, loops of 10^5
+// iterations. All terminate; the largest costs well under a second in a release build.
+
+pub fn scale_templates() -> Vec<(String, String)> {
+    let mut v: Vec<(String, String)> = Vec::new();
+    let join = |n: usize, f: &dyn Fn(usize) -> String| (0..n).map(f).collect::<Vec<_>>().join(";\n");
+    for n in [260usize, 1000, 4200] {
+        v.push((format!("distinct_constants_{}", n), format!("let s = 0;\n{};\nprint(\"~\\n\", s)\n", join(n, &|i| format!("s <- s + {}", 1000 + i)))));
+    }
+    v.push(("globals_300".into(), format!("{};\nprint(\"~ ~ ~\\n\", g0, g150, g299)\n", join(300, &|i| format!("let g{} = {}", i, i * 3)))));
+    v.push(("functions_300".into(), format!("{};\nprint(\"~ ~ ~\\n\", f0(1), f150(2), f299(3))\n", join(300, &|i| format!("function f{}(x) -> x + {}", i, i)))));
+    v.push(("object_with_300_methods".into(), format!("let o = object begin\n{};\nend;\nprint(\"~ ~\\n\", o.m0(), o.m299())\n", join(300, &|i| format!("function m{}() -> {}", i, i)))));
+    v.push(("method_beyond_65535_instructions".into(), format!("function big(x) -> begin\n{};\nx\nend;\nprint(\"~\\n\", big(0))\n", join(11_000, &|_| "x <- x + 1".to_string()))));
+    v.push(("top_level_beyond_65535_instructions".into(), format!("let x = 0;\n{};\nprint(\"~\\n\", x)\n", join(17_000, &|_| "x <- x + 1".to_string()))));
+    for n in [255usize, 256, 4095, 4096, 8191, 8192, 65_535, 65_536, 70_000] {
+        v.push((format!("format_string_{}_bytes", n), format!("print(\"{}\\n\")\n", "x".repeat(n))));
+    }
+    v.push(("format_string_66000_bytes_non_ascii".into(), format!("print(\"{}\\n\")\n", "é".repeat(33_000))));
+    v.push(("output_300_KiB".into(), "let i = 0;\nwhile i < 6000 do begin print(\"line ~ of the long output, padded to about fifty bytes\\n\", i); i <- i + 1 end\n".into()));
+    v.push(("output_without_line_breaks_40_KiB".into(), "let i = 0;\nwhile i < 8000 do begin print(\"~,\", i); i <- i + 1 end\n".into()));
+    v.push(("allocations_6000_objects_and_arrays".into(), "let i = 0;\nlet keep = null;\nwhile i < 3000 do begin keep <- object begin let n = i; function get() -> this.n; end; keep <- array(3, keep); i <- i + 1 end;\nprint(\"~\\n\", i)\n".into()));
+    v.push(("loop_100000_iterations".into(), "let i = 0;\nlet s = 0;\nwhile i < 100000 do begin s <- s + i; i <- i + 1 end;\nprint(\"~\\n\", s)\n".into()));
+    v.push(("array_of_100000_then_sum_of_first_ten".into(), "let a = array(100000, 7);\nlet i = 0;\nlet s = 0;\nwhile i < 10 do begin s <- s + a[i]; i <- i + 1 end;\nprint(\"~\\n\", s)\n".into()));
+    v.push(("print_array_of_5000".into(), "let a = array(5000, 0);\nlet i = 0;\nwhile i < 5000 do begin a[i] <- i; i <- i + 1 end;\nprint(\"~\\n\", a)\n".into()));
+    v.push(("call_255_arguments".into(), format!("function f({}) -> p0 + p254;\nprint(\"~\\n\", f({}))\n", (0..255).map(|i| format!("p{}", i)).collect::<Vec<_>>().join(", "), (0..255).map(|i| format!("{}", i)).collect::<Vec<_>>().join(", "))));
+    v.push(("empty_everything".into(), "let o = object begin end;\nlet a = array(0, 0);\nfunction f() -> null;\nprint(\"\");\nprint(\"~~~\\n\", o, a, f())\n".into()));
+    v.push(("field_named_like_method_and_builtin".into(), "let o = object extends 5 begin let get = 1; let m = 2; function m() -> 3; function +(x) -> 4; end;\nprint(\"~ ~ ~ ~\\n\", o.get, o.m, o.m(), o + 1)\n".into()));
+    v
+}
+
+/// Qualification for scale templates: same idea as `qualify`, with a budget that admits their long loops.
+pub fn qualify_scaled(name: &str, spec: &ProgSpec, default_budget: u64) -> Option<vm::RunResult> {
+    qualify(spec, if name.starts_with("scale:") { 4_000_000 } else { default_budget })
+}
